@@ -37,6 +37,7 @@ pub enum Evolution {
 }
 
 #[derive(Debug)]
+#[cfg_attr(kani, repr(u8))]
 pub(crate) enum SerializedEvolutionStep {
     FieldAddedToNewChunk { size: i32 },
     FieldMadeOptional { position: FieldPosition },
